@@ -1,10 +1,28 @@
 import DoltVerif.Model.Wire
 import DoltVerif.Model.JournalRec
 import DoltVerif.Model.JournalRecover
+import DoltVerif.Model.JournalWriter
 open DoltVerif DoltVerif.Journal DoltVerif.Wire
 
 structure St where
   file : Bytes := []
+  w : WState := { cap := 0, maxNovel := 0, threshold := 0 }
+  written : Bytes := []
+
+def showEv : Ev → String
+  | .write off bs => s!"W{off}+{bs.length}"
+  | .sync => "S"
+  | .ack _ => "A"
+  | .idxLookup a o l => s!"L{hex a}@{o}+{l}"
+  | .idxMeta a b c r => s!"M{a}-{b}:{c}:{hex r}"
+  | .fail => "F"
+
+def showW (w : WState) (evs : List Ev) : String :=
+  let root := match w.currentRoot with | some r => hex r | none => "-"
+  s!"st {w.off} {w.buf.length} {w.unsyncd} {w.indexed} {w.novel.length} {root} {w.batchCrc.toNat} | {",".intercalate (evs.map showEv)}"
+
+def writtenOf (evs : List Ev) : Bytes :=
+  evs.foldl (fun acc e => match e with | .write _ bs => acc ++ bs | _ => acc) []
 
 def rerr : RErr → String
   | .unknownTag _ => "unknown-tag" | .panic => "panic" | .unknownKind _ => "unknown-kind"
@@ -58,6 +76,28 @@ def step (st : St) : List String → St × String
       | some B, some b => (st, match dlc B b false with
           | .ok true => "true" | .ok false => "false" | .error e => s!"err {rerr e}")
       | _, _ => (st, "bad-op")
+  | ["winit", cap, mx, thr, off, idx, nov, root, clock, crc] =>
+    match cap.toNat?, mx.toNat?, thr.toNat?, off.toNat?, idx.toNat?, nov.toNat?, unhex root, clock.toNat?, crc.toNat? with
+    | some cap, some mx, some thr, some off, some idx, some nov, some root, some clock, some crc =>
+      let w : WState := { cap := cap, maxNovel := mx, threshold := thr, off := off, indexed := idx,
+                          novel := List.replicate nov [], currentRoot := if root.isEmpty then none else some root,
+                          clock := clock, batchCrc := UInt32.ofNat crc }
+      ({ st with w := w, written := [] }, "ok")
+    | _, _, _, _, _, _, _, _, _ => (st, "bad-op")
+  | ["wchunk", a, p] => match unhex a, unhex p with
+      | some a, some p =>
+        let (w, evs) := Journal.step st.w (.chunk a p)
+        ({ st with w := w, written := st.written ++ writtenOf evs }, showW w evs)
+      | _, _ => (st, "bad-op")
+  | ["wcommit", a] => match unhex a with
+      | some a =>
+        let (w, evs) := Journal.step st.w (.commit a)
+        ({ st with w := w, written := st.written ++ writtenOf evs }, showW w evs)
+      | none => (st, "bad-op")
+  | ["wbump", n] => match n.toNat? with
+      | some n => let (w, evs) := Journal.step st.w (.bump n); ({ st with w := w }, showW w evs)
+      | none => (st, "bad-op")
+  | ["wwritten"] => (st, hex st.written)
   | _ => (st, "bad-op")
 
 def main : IO Unit := run ({} : St) step
